@@ -305,6 +305,19 @@ def falsify(ctx, deep=False):
             worst[clause] = max(worst.get(clause, -1e300), err if math.isfinite(err) else 1e300)
             if not (err <= tol):
                 viols.append({"clause": clause, "error": err, "tolerance": tol, "input": inp})
+    # screens generated at the same time from a thread pool (same and different sizes) are the screens generated one after the other
+    import common as _common
+    def _mk(kind, N_, sd):
+        def f():
+            with warnings.catch_warnings():
+                warnings.simplefilter("ignore")
+                return (ps.ft_sh_phase_screen if kind == "sh" else ps.ft_phase_screen)(0.15, N_, 0.1, 30.0, 0.01, seed=numpy.random.default_rng(sd))
+        return f
+    calls_ = [_mk("sh", 64, 11 + k) for k in range(5)] + [_mk("ft", 64, 40 + k) for k in range(2)] + [_mk("sh", 32, 90)]
+    nbad = _common.threads_equal(calls_, workers=8, repeats=3)
+    worst["concurrent calls from a thread pool give the sequential screens"] = float(nbad)
+    if nbad:
+        viols.append({"clause": "concurrent calls from a thread pool give the sequential screens", "error": float(nbad), "tolerance": 0.0, "input": {"threads": True}})
     inp = gen_input(rng)
     inp.update({"N": 1024, "delta": rng.loguniform(0.005, 0.05), "large_grid": True})
     try:
@@ -332,6 +345,8 @@ def replay(payload):
     if not v:
         print("replay file names a proof/correspondence failure, no input:", payload.get("proof", {}).get("failed_at"))
         return False
+    if v["input"].get("threads"):
+        print("  thread-pool clause: re-run ./check C07"); return False
     if "errors" in v["input"]:
         e = grid_refinement_check(); print("  errors", e); return e[2] < e[1] < e[0]
     bad = [(c, e, t) for c, e, t in (big_grid_checks(v["input"]) if v["input"].get("big_grid") else (large_grid_checks(v["input"]) if v["input"].get("large_grid") else property_checks(v["input"]))) if not (e <= t)]
